@@ -2,6 +2,7 @@ package w9
 
 import (
 	"bytes"
+	"encoding/binary"
 	"fmt"
 
 	"github.com/buildbarn/go-xdr/pkg/protocols/nfsv4"
@@ -23,11 +24,6 @@ func (w *world) apply(req *request, d *delivery) {
 			w.k.Probe("reply-after-client-record-was-replaced")
 			return
 		}
-	}
-	switch req.kind {
-	case kIO, kProbeFH, kRenew, kLockT, kRemove:
-	default:
-		w.modelVersion++
 	}
 	if c.minor == 1 && req.sess != nil {
 		if !w.applySequence(req, d) {
@@ -132,6 +128,7 @@ func (w *world) apply(req *request, d *delivery) {
 		if ev && s == nfsv4.NFS4_OK {
 			r := res.Resarray[base+1].(*nfsv4.NfsResop4_OP_OPEN_CONFIRM).OpopenConfirm.(*nfsv4.OpenConfirm4res_NFS4_OK)
 			o.confirmed = true
+			o.recreated = false
 			if of := o.files[string(req.fh)]; of != nil {
 				of.sid = r.Resok4.OpenStateid
 			}
@@ -293,6 +290,14 @@ func (w *world) apply(req *request, d *delivery) {
 			}
 		} else if leaf < w.nLeaves() && w.alloc.snapshot()[leaf].unlinked {
 			w.k.Probe("putfh-of-unlinked-open-file-ok")
+		}
+	}
+}
+
+func (c *client) noteOther(sid nfsv4.Stateid4) {
+	if c.minor == 1 {
+		if k := binary.LittleEndian.Uint64(sid.Other[:8]); k > c.hwmOther {
+			c.hwmOther = k
 		}
 	}
 }
@@ -460,6 +465,7 @@ func (w *world) applySequence(req *request, d *delivery) bool {
 			// The session is gone: the lease expired (the model could not
 			// exclude that). All state went with it.
 			w.k.Probe("client-found-expired")
+			c.markDead(c.id)
 			c.dropState()
 			c.registered, c.hasPend, c.sess = false, false, nil
 		}
@@ -484,9 +490,16 @@ func (w *world) applyCreateSession(req *request, d *delivery) {
 	}
 	switch s {
 	case nfsv4.NFS4_OK:
+		if c.deadIDs[req.clID] {
+			// Late reply of a copy evaluated before the record it
+			// confirmed was replaced or destroyed.
+			w.k.Probe("late-reply-of-confirm-for-replaced-record")
+			return
+		}
 		r := d.res.Resarray[0].(*nfsv4.NfsResop4_OP_CREATE_SESSION).OpcreateSession.(*nfsv4.CreateSession4res_NFS4_OK)
 		if !c.registered || c.id != req.clID {
 			if c.registered {
+				c.markDead(c.id)
 				w.k.Probe("reregistration-replaces-client-record")
 				if w.clientHoldsOpens(c) {
 					w.k.Probe("reregistration-with-open-files")
@@ -543,6 +556,12 @@ func (w *world) applyOpen(req *request, d *delivery) {
 			}
 			return
 		}
+		wasMaybeGone := w.ownerMaybeGone(o)
+		if s == nfsv4.NFS4_OK {
+			o.recreated = false
+		} else if wasMaybeGone {
+			o.recreated = true
+		}
 		needsConfirm := false
 		if s == nfsv4.NFS4_OK {
 			needsConfirm = d.res.Resarray[base+1].(*nfsv4.NfsResop4_OP_OPEN).Opopen.(*nfsv4.Open4res_NFS4_OK).Resok4.Rflags&nfsv4.OPEN4_RESULT_CONFIRM != 0
@@ -590,6 +609,7 @@ func (w *world) applyOpen(req *request, d *delivery) {
 	}
 	of.access |= req.access
 	of.sid = r.Resok4.Stateid
+	c.noteOther(of.sid)
 	if w.alloc.snapshot()[leaf].unlinked {
 		w.k.Probe("open-of-unlinked-file")
 	}
@@ -639,6 +659,7 @@ func (w *world) applyLock(req *request, d *delivery) {
 			w.k.Probe("lock-state-created")
 		}
 		lf.sid = sid
+		c.noteOther(sid)
 		lf.ranges = append(lf.ranges, req.offset)
 		w.k.Probe("lock-ok")
 	case nfsv4.NFS4ERR_DENIED:
